@@ -78,6 +78,8 @@ def c04_jobs(tier):
     if tier == "thorough":
         extra = [miri("c04-miri", "c04", 14), sim("c04-phases-h2", "c04", transport="h2", episodes=3300)]
     extra.append(conc("c04-conc", "c03", params={"n": 1500 if tier == "quick" else 20000}))
+    # leases that run out on a subscription whose topic is gone (delete / re-create walks, exact model)
+    extra.append(sim("c04-detached", "c11", require_nontrivial=False))
     return extra + [sim("c04-phases", "c04", require_counters=["expiry_measured_by_blocked_pull", "expiry_measured_by_stream", "probe_before_deadline_empty", "probe_after_slack_returned", "second_expiry_observed"])]
 
 
@@ -125,6 +127,8 @@ def c01_jobs(tier):
     # deadline modifications of every shape (same deadline, duplicate IDs, dead IDs in front): the
     # unacknowledged message must still come back
     jobs.append(sim("c01-modify-grid", "c05", require_nontrivial=False))
+    # push consumers: a message the endpoint refused keeps being POSTed until it is accepted
+    jobs.append(sim("c01-push", "c14", require_nontrivial=False))
     if tier == "thorough":
         jobs.append(conc("c01-conc-h2", "c01", transport="h2"))
         jobs.append(asan_mt("c01-asan-mt", "conc", params={"profile": "c01"}, crash_property="C01"))
@@ -135,6 +139,8 @@ def c03_jobs(tier):
     jobs = [conc("c03-conc", "c03", require_counters=["subscriptions_with_2plus_consumers", "redeliveries"]),
             sim("c03-seq-model", "c05", require_nontrivial=False),
             sim("c03-seq-deadlines", "c04", require_nontrivial=False),
+            # pulls with limits around the 16-bit wrap (0, 65536, ...): ack ids stay unique, leases exclusive
+            sim("c03-limits", "c15", require_nontrivial=False),
             sim("c03-push-vs-pull", "c14", params={"maxlen": 1}, require_counters=["competitor_deliveries"], require_nontrivial=False),
             conc("c03-conc-c01mix", "c01", params={"n": 1500 if tier == "quick" else 20000})]
     if tier == "thorough":
@@ -144,7 +150,9 @@ def c03_jobs(tier):
 
 
 def c08_jobs(tier):
-    jobs = [conc("c08-conc", "c08", require_counters=["overlapping_publish_pairs", "first_deliveries", "mailbox_full_observations"])]
+    jobs = [conc("c08-conc", "c08", require_counters=["overlapping_publish_pairs", "first_deliveries", "mailbox_full_observations"]),
+            # what a consumer finds right after another consumer's pull was abandoned at any of its suspension points
+            sim("c08-abandoned-pull", "c16", require_counters=["order_checked_after_abandoned_pull"], require_nontrivial=False)]
     if tier == "thorough":
         jobs.append(conc("c08-conc-h2", "c08", transport="h2"))
     return jobs
